@@ -14,7 +14,7 @@ META = {
  "property": "C14",
  "harnesses": {
   "h_two_links": {"kind": "G", "functions": _FUNCS,
-    "bounds": "GFA1 graph on 3 segments with distinct sequences and ANY two links (from, to in {a,b,c}: self links, hairpins, parallel and complementary links, 2-cycles; all orientation pairs; overlap 1M, thorough also '*' and 2M): linear_paths equals the oracle chains; after merge_linear_paths one segment per chain with the spelled sequence and LN, outward dovetails re-attached, other lines unchanged, components preserved, reference graph closed and symmetric, second merge is a no-op",
+    "bounds": "GFA1 graph on 3 segments with distinct sequences (IUPAC codes included) or without sequences (LN only) and ANY two links (from, to in {a,b,c}: self links, hairpins, parallel and complementary links, 2-cycles; all orientation pairs; overlap 1M, thorough also '*' and 2M): linear_paths equals the oracle chains; after merge_linear_paths one segment per chain with the spelled sequence and LN, outward dovetails re-attached, other lines unchanged, components preserved, reference graph closed and symmetric, second merge is a no-op",
     "timeout": {"quick": 400, "thorough": 2400}, "parts": {"quick": 16, "thorough": 16}},
   "h_chain_shapes": {"kind": "G", "functions": _FUNCS,
     "bounds": "chains a-b-c (quick) / a-b-c-d (thorough): every orientation pair at every junction, overlap 0..2, plus one decoration (none, hairpin on the last end, hairpin on the first end, branch at the last end, closing link making a cycle, containment on the middle segment, link to an outside segment e); sequences present or '*'; same assertions as h_two_links",
@@ -25,7 +25,7 @@ META = {
  },
 }
 
-SEQ = {"a": "AACCG", "b": "GGTTA", "c": "TTGCA", "d": "CAGTT", "e": "ACGTA"}
+SEQ = {"a": "AACCG", "b": "GSWTA", "c": "TRYKM", "d": "CBDHV", "e": "ACnTA"}        # (IUPAC codes: the complement table matters)
 ORI = ["+", "-"]
 
 def _doc(segs, links, seqs=True):
@@ -87,7 +87,6 @@ def _link(code):
 def h_two_links(l1: int, l2: int, seqs: bool) -> bool:
   """
   pre: 0 <= l1 < 36 * NOV and 0 <= l2 < 36 * NOV and l1 <= l2
-  pre: THOROUGH or seqs
   pre: (l1 + l2) % NPART == PART
   post: _ == True
   """
